@@ -275,17 +275,29 @@ def run_dtype(ctx) -> RuleResult:
                             continue
                         seen.add((id(call), id(step.vars)))
                         params = CONSTRUCTORS[cname]
-                        if "coefficients" not in params:
-                            continue
                         expanded = step.expand(call)
-                        coefs = _arg(expanded, "coefficients", params)
                         dtype = _arg(expanded, "dtype", params)
-                        if coefs is None or dtype is None:
+                        if dtype is None:
                             continue
-                        ops = _operand_ids(ctx, module, coefs, only_storage=True)
-                        aligned = {o for o in ops if "[" in o} | _aligned_ids(ctx, module, coefs)
-                        if len(aligned) >= 2:
-                            ops = aligned
+                        if "coefficients" in params:
+                            coefs = _arg(expanded, "coefficients", params)
+                            if coefs is None:
+                                continue
+                            ops = _operand_ids(ctx, module, coefs, only_storage=True)
+                            aligned = {o for o in ops if "[" in o} | _aligned_ids(ctx, module, coefs)
+                            if len(aligned) >= 2:
+                                ops = aligned
+                        else:
+                            # numpoly.ndpoly(exponents=<from several operands>, dtype=...): a raw allocation that
+                            # will receive values computed from all of them
+                            exps = _arg(expanded, "exponents", params)
+                            if exps is None:
+                                continue
+                            ops = set()
+                            for node in walk_shared(exps):
+                                if isinstance(node, ast.Attribute) and node.attr == "exponents":
+                                    ops |= _operand_ids(ctx, module, node.value)
+                            ops = {o for o in ops if o not in ("out",)}
                         if len(ops) < 2:
                             continue
                         n += 1
